@@ -1,6 +1,113 @@
 import SR.Drv.Loop
-/-! Driver commands for C06 (stub). -/
+import SR.Actor.Codec
+import SR.Actor.Spec
+/-! Driver commands for C06 (also used by C09 and C15).
+Model side: `graph`, `step`, `acts`, `init`. Oracle side: `o-graph` — the declarative step relation
+(`specStep`, `enabledSpec`, `specInit` of SR/Actor/Spec.lean) evaluated on the implementation's own walk,
+plus "exactly one handler invocation, of the right actor, with the right arguments" on the invocation log. -/
 namespace SR.Drv.C06
+open SR SR.Actor SR.Actor.Codec
+
+/-- expected handler invocations of a transition, in the wire form of the harness log -/
+partial def baseOf : U → Nat
+  | .base n => n
+  | .L u | .R u | .S u | .W u => baseOf u
+
+def expectedLog (st : USt) (a : Action) : List SExp :=
+  match eventOf a with
+  | none => []
+  | some (i, ev) =>
+    match st.actors[i]? with
+    | none => []
+    | some s =>
+      if st.crashed[i]? == some true && isDeliver a then [] else
+      let b := SExp.ofNat (baseOf s)
+      match ev with
+      | .msg src m => [.list [.atom "msg", SExp.ofNat i, b, SExp.ofNat src, SExp.ofNat m]]
+      | .timeout t => [.list [.atom "timeout", SExp.ofNat i, b, SExp.ofNat t]]
+      | .random r => [.list [.atom "random", SExp.ofNat i, b, SExp.ofNat r]]
+
+/-- candidate actions of a state: everything built from what the state holds -/
+def candidates (sys : USys) (st : USt) : List Action :=
+  let envs := st.net.contents
+  envs.map Action.deliver ++ envs.map Action.drop ++
+  st.timers.zipIdx.flatMap (fun p => p.1.map (fun t => Action.timeout p.2 t)) ++
+  (List.range (sys.n + 1)).map Action.crash ++
+  st.random.zipIdx.flatMap (fun p => p.1.flatMap (fun kv => kv.2.map (fun r => Action.selectRandom p.2 kv.1 r)))
+
+def resOf (states : Array USt) : SExp → Option (Outcome USt)
+  | .atom "-" => some .ignored
+  | .atom "!" => some .panic
+  | x => do let j ← x.nat?; let s ← states[j]?; pure (.next s)
+
+/-- declarative initial state (C06_init): every actor started in index order, commands applied per component -/
+def specInit (sys : USys) : USt :=
+  let starts := (List.range sys.n).map (fun i => (i, (sys.actor i).start i))
+  let sends := starts.flatMap (fun p => sendsOf p.1 p.2.2)
+  { actors := starts.map (·.2.1)
+    net := sendAll sys.initNet sends
+    timers := starts.map (fun p => p.2.2.foldl applyTimerCmd [])
+    random := starts.map (fun p => p.2.2.foldl applyRandomCmd [])
+    crashed := List.replicate sys.n false
+    hist := recordOuts sys sys.initHist sends }
+
+def checkRecord (sys : USys) (states : Array USt) (i : Nat) (st : USt) (rec : List SExp) : Option String := do
+  let mut listed : List Action := []
+  for t in rec do
+    match t with
+    | .list [a, res, .list log] =>
+      let some a := action? a | return s!"state {i}: bad action"
+      let some r := resOf states res | return s!"state {i}: bad result"
+      listed := a :: listed
+      if !decide (enabledSpec sys st a) then return s!"state {i}: action {ofAction a} offered but not enabled by the specification"
+      let exp := specStep sys st a
+      if r == .panic then return s!"state {i}: enabled action {ofAction a} panics"
+      if exp != r then return s!"state {i}: action {ofAction a}: successor differs from the specified one: spec {ofOutcomeSt exp}"
+      if log != expectedLog st a then
+        return s!"state {i}: action {ofAction a}: handler invocations {SExp.list log} but specified {SExp.list (expectedLog st a)}"
+    | _ => return s!"state {i}: bad transition"
+  for a in candidates sys st do
+    if decide (enabledSpec sys st a) && !listed.contains a then
+      return s!"state {i}: action {ofAction a} enabled by the specification but not offered"
+  none
+
+def oGraph (sys : USys) (states : Array USt) (recs : List SExp) (initLog : List SExp) : String := Id.run do
+  match states[0]? with
+  | none => return "no-initial-state"
+  | some s0 =>
+    if s0 != specInit sys then return s!"initial state differs from the specified one: spec {ofSt (specInit sys)}"
+    let expLog := (List.range sys.n).map (fun i => SExp.list [.atom "start", SExp.ofNat i])
+    if initLog != expLog then return s!"on_start invocations {SExp.list initLog}"
+    let mut i := 0
+    for rec in recs do
+      match states[i]?, rec with
+      | some st, .list rec =>
+        match checkRecord sys states i st rec with
+        | some err => return err
+        | none => pure ()
+      | _, _ => return s!"bad record {i}"
+      i := i + 1
+    return "ok"
+
 def handle : Drv.Handler
+  | "graph", [sys, bound] => do
+    let sys ← sys? sys; let bound ← bound.nat?
+    pure (match walk sys bound with | none => "panic" | some w => ofWalk w)
+  | "init", [sys] => do
+    let sys ← sys? sys
+    pure (match init sys with | none => "panic" | some st => toString (ofSt st))
+  | "acts", [sys, st] => do
+    let sys ← sys? sys; let st ← st? st
+    pure (toString (SExp.list ((sortActions (actions sys st)).map ofAction)))
+  | "step", [sys, st, a] => do
+    let sys ← sys? sys; let st ← st? st; let a ← action? a
+    pure (ofOutcomeSt (step sys st a))
+  | "o-graph", [sys, states, recs, initLog] => do
+    let sys ← sys? sys
+    let states ← states.listOf? st?
+    let recs ← recs.list?
+    let initLog ← initLog.list?
+    pure (oGraph sys states.toArray recs initLog)
   | _, _ => none
+
 end SR.Drv.C06
